@@ -687,6 +687,9 @@ func (t *tScreen) Fini() {
 
 func (t *tScreen) finish() {
 	close(t.quit)
+	t.Lock()
+	t.fini = true
+	t.Unlock()
 	t.finalize()
 }
 
@@ -2046,7 +2049,7 @@ func (t *tScreen) Tty() (Tty, bool) {
 func (t *tScreen) engage() error {
 	t.Lock()
 	defer t.Unlock()
-	if t.tty == nil {
+	if t.tty == nil || t.fini {
 		return ErrNoScreen
 	}
 	t.tty.NotifyResize(func() {
